@@ -480,10 +480,18 @@ def generate(rng, tier):
 
 
 # ----------------------------------------------------------------------------- running the real code
+def _toint(x):
+    try:
+        return int(x)
+    except Exception:
+        return "non-scalar:" + str(x)[:40]
+
+
 def _snap(a):
-    return {"data": [int(x) for x in a._data.tolist()],
-            "arr": [[int(x) for x in np.asarray(r).tolist()] for r in a._array],
-            "lens": [int(x) for x in a.lengths.tolist()]}
+    # robust against a corrupted object (scalars in row slots, arrays in cells): such content is reported, not raised
+    return {"data": [_toint(x) for x in list(a._data)],
+            "arr": [[_toint(x) for x in np.atleast_1d(np.asarray(r, dtype=object))] for r in a._array],
+            "lens": [_toint(x) for x in list(a.lengths)]}
 
 
 def _errkind(ex):
